@@ -39,9 +39,14 @@ def build(variant="plain", quiet=True):
     exe = os.path.join(bdir, "vh")
     if os.path.exists(exe):
         return exe
-    # drop stale builds of the same variant (disk is limited)
-    for d in glob.glob(os.path.join(VERIF, ".build", variant + "-*")):
+    # drop stale builds of the same variant (disk is limited), keeping the two most recent ones: another check may
+    # still be running from them
+    old = sorted(glob.glob(os.path.join(VERIF, ".build", variant + "-*")), key=lambda d: os.path.getmtime(d))
+    for d in old[:-2]:
         shutil.rmtree(d, ignore_errors=True)
+    final_bdir = bdir
+    bdir = bdir + ".tmp%d" % os.getpid()
+    exe = os.path.join(bdir, "vh")
     os.makedirs(bdir, exist_ok=True)
     with open(os.path.join(bdir, "chessplusplusConfig.h"), "w") as f:
         f.write('#define ENGINE_NAME "chessplusplus"\n#define CHESSPLUSPLUS_VERSION "verif"\n')
@@ -72,6 +77,11 @@ def build(variant="plain", quiet=True):
         shutil.rmtree(bdir, ignore_errors=True)
         raise SystemExit(3)
     os.rename(exe + ".tmp", exe)
+    try:
+        os.rename(bdir, final_bdir)          # atomic publish; a concurrent builder of the same tree may have won
+    except OSError:
+        shutil.rmtree(bdir, ignore_errors=True)
+    exe = os.path.join(final_bdir, "vh")
     if not quiet:
         sys.stderr.write("built %s in %.1fs\n" % (exe, time.time() - t0))
     return exe
